@@ -138,3 +138,59 @@ theorem stableSort_stable {α} (cmp : α → α → Ordering) (l : List α) (a b
         exact this.trans (List.sublist_append_right _ _)
 
 end Pdt.Spec
+
+namespace Pdt.Spec
+
+theorem insertBy_pairwise_on {α} (le : α → α → Bool) (S : α → Prop)
+    (htot : ∀ a b, S a → S b → le a b = false → le b a = true)
+    (htrans : ∀ a b c, S a → S b → S c → le a b = true → le b c = true → le a c = true) (x : α) (l : List α)
+    (hx : S x) (hS : ∀ y ∈ l, S y)
+    (hl : l.Pairwise (fun a b => le a b = true)) : (insertBy le x l).Pairwise (fun a b => le a b = true) := by
+  induction l with
+  | nil => simp [insertBy]
+  | cons y ys ih =>
+    unfold insertBy
+    rw [List.pairwise_cons] at hl
+    have hy : S y := hS y (by simp)
+    have hys : ∀ z ∈ ys, S z := fun z hz => hS z (by simp [hz])
+    split
+    · rename_i hxy
+      rw [List.pairwise_cons]
+      refine ⟨?_, List.pairwise_cons.2 hl⟩
+      intro z hz
+      rcases List.mem_cons.1 hz with rfl | hz
+      · exact hxy
+      · exact htrans _ _ _ hx hy (hys z hz) hxy (hl.1 z hz)
+    · rename_i hxy
+      have hyx : le y x = true := htot x y hx hy (by simpa using hxy)
+      rw [List.pairwise_cons]
+      refine ⟨?_, ih hys hl.2⟩
+      intro z hz
+      have := (insertBy_perm le x ys).mem_iff.1 hz
+      rcases List.mem_cons.1 this with rfl | hz
+      · exact hyx
+      · exact hl.1 z hz
+
+/-- sortedness when the comparison is a total preorder *on the elements of the list* -/
+theorem stableSort_pairwise_on {α} (cmp : α → α → Ordering) (S : α → Prop)
+    (htot : ∀ a b, S a → S b → cmp a b = .gt → cmp b a ≠ .gt)
+    (htrans : ∀ a b c, S a → S b → S c → cmp a b ≠ .gt → cmp b c ≠ .gt → cmp a c ≠ .gt) (l : List α) (hS : ∀ y ∈ l, S y) :
+    (stableSort cmp l).Pairwise (fun a b => cmp a b ≠ .gt) := by
+  have key : (stableSort cmp l).Pairwise (fun a b => (cmp a b != .gt) = true) := by
+    induction l with
+    | nil => simp [stableSort]
+    | cons x xs ih =>
+      rw [stableSort_cons]
+      have hxs : ∀ y ∈ xs, S y := fun y hy => hS y (by simp [hy])
+      apply insertBy_pairwise_on _ S _ _ x _ (hS x (by simp)) _ (ih hxs)
+      · intro a b ha hb h
+        have : cmp a b = .gt := by simpa using h
+        simpa using htot a b ha hb this
+      · intro a b c ha hb hc h1 h2
+        have := htrans a b c ha hb hc (by simpa using h1) (by simpa using h2)
+        simpa using this
+      · intro y hy
+        exact hxs y ((stableSort_perm cmp xs).mem_iff.1 hy)
+  exact key.imp (fun h => by simpa using h)
+
+end Pdt.Spec
